@@ -124,11 +124,20 @@ var (
 func currentWatchdog() time.Duration { watchdogMu.Lock(); defer watchdogMu.Unlock(); return watchdog }
 
 func noteExpiry() {
-	Expiries.Add(1)
-	watchdogMu.Lock()
-	watchdog = 750 * time.Millisecond // after the first expiry in a process do not pay the long grace again
-	watchdogMu.Unlock()
+	if Expiries.Add(1) >= 3 {
+		watchdogMu.Lock()
+		watchdog = 3 * time.Second // a process that keeps expiring does not pay the long grace every time
+		watchdogMu.Unlock()
+	}
 }
+
+// Quiescence is established by the number of goroutines of the process returning to what it
+// was when the case started. lastBaseline/lastSettled carry that over to the next case: after a
+// case that could not be brought to rest the next one first waits for the stragglers.
+var (
+	lastBaseline int
+	lastSettled  = true
+)
 
 func (g *Rig) viol(clause string, sub int, call, format string, a ...any) {
 	g.res.Violations = append(g.res.Violations, Violation{Prop: clauseProp[clause], Clause: clause, Sub: sub, Call: call, Step: g.stepNo, Msg: fmt.Sprintf(format, a...)})
@@ -152,7 +161,11 @@ func Execute(h History) *Result {
 		dry.ApplyFull(st)
 	}
 
-	settleGoroutines(runtime.NumGoroutine(), 200*time.Millisecond)
+	if !lastSettled && !settleGoroutines(lastBaseline, 30*time.Second) {
+		noteExpiry()
+		return &Result{Labels: map[string]int{"goroutines-of-earlier-case-still-running": 1}, Model: dry,
+			Inconclusive: "goroutines of an earlier case are still running; the case was not executed"}
+	}
 	g := &Rig{bus: newBus(), clock: &Clock{}, conns: map[int]resolve.ConnectionID{}, cfgs: map[int]subCfg{}, m: NewModel(),
 		res: &Result{Labels: map[string]int{}}, baseline: runtime.NumGoroutine()}
 	g.res.Model = g.m
@@ -851,6 +864,7 @@ func (g *Rig) finish() {
 	if quiet {
 		quiet = settleGoroutines(g.baseline, 5*time.Second)
 	}
+	lastBaseline, lastSettled = g.baseline, quiet
 	if !quiet {
 		g.label("goroutines-did-not-settle")
 		buf := make([]byte, 1<<16)
